@@ -32,9 +32,18 @@ MDTYPE = {"atlas": "add_atlas_event_collection_info", "cms_aod": "add_cms_aod_ev
 
 
 def translate(ctx):
+    import fcntl
+
     import vlib
     from c06_lib import translate as tr
 
+    # Two C06 runs on different trees (VERIF_REPO) would overwrite each other's generated tables
+    # between translation, build and the driver calls: serialise whole C06 runs (the lock is
+    # released when the process exits).
+    if not hasattr(ctx, "_c06_lock"):
+        (vlib.LEAN / ".lake").mkdir(exist_ok=True)
+        ctx._c06_lock = open(vlib.LEAN / ".lake" / "c06.lock", "w")
+        fcntl.flock(ctx._c06_lock, fcntl.LOCK_EX)
     text, data = tr.generate(vlib.REPO)
     vlib.write_if_changed(vlib.LEAN / "FaxVerif/Generated/C06Tables.lean", text)
     ctx.c06_data = data
